@@ -1,10 +1,10 @@
 CONSTANT NoPassCopies = TRUE
 CONSTANT NCALLS = 3
 CONSTANT SMALL = TRUE
-INIT MCInit
-NEXT MCNext
+SPECIFICATION MCSpec
 INVARIANT AtReturn
 INVARIANT Progress
 INVARIANT HeldOnlyInCall
 PROPERTY BufMonotone
+PROPERTY Terminates
 CHECK_DEADLOCK FALSE
